@@ -205,6 +205,24 @@ func c09Check(c *mon.Ctx, g *logenc.Group) {
 			return
 		}
 		c.Add("file_summaries_checked", 1)
+		// which record: the normalisations of these syscalls select PATH record 0 (no object_path_index); records
+		// of name type PARENT / UNKNOWN are passed over in favour of a later one, but when there is no other kind
+		// the normalisation's own choice stands (what the kernel logs for a failed open/unlink of a missing name)
+		if sc := ev.Data["syscall"]; (sc == "open" || sc == "openat" || sc == "unlink" || sc == "chmod" || sc == "chown") && len(ev.Paths) >= 2 {
+			allPassedOver := true
+			for _, p := range ev.Paths {
+				if nt := p["nametype"]; nt != "PARENT" && nt != "UNKNOWN" {
+					allPassedOver = false
+				}
+			}
+			if allPassedOver {
+				c.Add("file_summaries_with_only_parent_or_unknown_paths", 1)
+				if ev.File.Inode != ev.Paths[0]["inode"] {
+					c.Violation("file-wrong-record", fmt.Sprintf("every PATH record of the %s event has name type PARENT or UNKNOWN; the normalisation selects record 0 (inode %s), the file summary describes inode %s", sc, ev.Paths[0]["inode"], ev.File.Inode), g)
+					return
+				}
+			}
+		}
 		var firstSig, firstMsg string
 		okAny := false
 		for _, sel := range cands {
